@@ -767,7 +767,13 @@ Definition reload_ok (reg : registry) (shape : reload_shape) (c : ctor) (kvs : l
       | Reject _, _ => false
       end
   end.
+(* the alternatives of alts_of, at most four members of a long enum *)
+Definition alts_light (sib : list stree) (l : leaf) : list jv :=
+  match base (lty l) with
+  | BEnum vals => (map JStr (firstn 4 vals) ++ [JNull; JStr "no such value"])%list
+  | _ => alts_of sib l
+  end.
 Definition all_reloads_ok (reg : registry) (shape : reload_shape) (c : ctor) (t : stree) : bool :=
   forallb (fun x => forallb (fun v => reload_ok reg shape c (with_dev (ldev (snd (fst x))) (override (fst (fst x)) v)))
-                            (alts_of (snd x) (snd (fst x))))
+                            (alts_light (snd x) (snd (fst x))))
           (leaves_sib_of_root t).
